@@ -379,6 +379,57 @@ fn main() {
         t
     });
 
+    // E9: long inputs of every outcome class (valid, scale overflow, i128 overflow, second dot, underscores)
+    // with a multi-byte character inserted at / substituted for every position: no byte offset computed from
+    // the length may ever be used to slice the input
+    let multi: Vec<&str> = vec!["é", "٣", "€", "😀"];
+    let mut e9: Vec<String> = vec![];
+    for l in [18usize, 19, 20, 37, 38, 39, 57, 63, 64, 65, 66, 76, 95, 100, 128, 130, 257] {
+        let d: String = (0..l).map(|i| char::from(b'1' + (i % 9) as u8)).collect();
+        e9.push(d.clone());
+        e9.push(format!("{}e99999999999999999999", d));
+        e9.push(format!("{}e-9223372036854775809", d));
+        e9.push(format!("{}e999999999999999999999999999999999999999999", d));
+        e9.push(format!("{}.{}", &d[..l / 2], &d[l / 2..]));
+        e9.push(format!("{}.{}.5", &d[..l / 2], &d[l / 2..]));
+        e9.push(format!("-{}_{}", &d[..l / 2], &d[l / 2..]));
+    }
+    run.bound("E9_long_bases", e9.len());
+    run.par("E9 multi-byte characters at every position of long inputs", e9.len(), |bi| {
+        let mut t = Tally::default();
+        let base: Vec<char> = e9[bi].chars().collect();
+        for pos in 0..=base.len() {
+            for m in multi.iter() {
+                for subst in [false, true] {
+                    if subst && pos == base.len() {
+                        continue;
+                    }
+                    let mut s = String::new();
+                    for (i, c) in base.iter().enumerate() {
+                        if i == pos {
+                            s.push_str(m);
+                            if subst {
+                                continue;
+                            }
+                        }
+                        s.push(*c);
+                    }
+                    if pos == base.len() {
+                        s.push_str(m);
+                    }
+                    t.states += 1;
+                    for e in ENTRIES {
+                        t.transitions += 1;
+                        if let Some(v) = check(e, s.as_bytes(), 10) {
+                            run.report(v);
+                        }
+                    }
+                }
+            }
+        }
+        t
+    });
+
     let radices = [0u32, 1, 2, 8, 9, 11, 16, 36, 37, u32::MAX];
     run.bound("E5_radices", json!(radices));
     run.par("E5 radix other than 10", gp.len(), |i| {
